@@ -74,3 +74,17 @@ package labelindex
 //@   ensures (res0 == nil) == c04Cov
 //@   ensures c04Cov ==> len(res1) == 0
 //@   ensures !c04Cov ==> res0 == cidr
+
+//@ -- candidate scan (thin): the endpoint scan may be narrowed to a label's index only when that label appears on
+//@ -- NO parent (an endpoint can inherit it from a parent, and the endpoint index would not list it); likewise the
+//@ -- parent scan is chosen only for a label that appears on no endpoint directly
+//@ ghost c04EpN int
+//@ ghost c04ParN int
+//@ func (*SelectorAndNamedPortIndex).iterEndpointCandidates$1
+//@   property C04
+//@   option safety off
+//@   option stable *any, *int
+//@   ghost at call any]).EstimatedItemsToScan#1: c04EpN = res
+//@   ghost at call string]).EstimatedItemsToScan#1: c04ParN = res
+//@   ensures *bestEPStrategy != old(*bestEPStrategy) ==> c04ParN == 0
+//@   ensures *bestParentStrategy != old(*bestParentStrategy) ==> c04EpN == 0
